@@ -2,7 +2,7 @@
    admissible advertisement can be encoded (connect's guard is exactly
    sendUpdate's "asn does not fit in 2 octets" error case). *)
 From Coq Require Import List NArith Bool Lia ZifyN ZifyBool.
-From Verif Require Import Model.Wire Model.Session Proofs.WireP Proofs.SessionP.
+From Verif Require Import Model.Wire Model.Session Proofs.WireP Proofs.WireSizeP Proofs.SessionP.
 Import ListNotations.
 Local Open Scope N_scope.
 
@@ -88,3 +88,85 @@ Qed.
 Lemma hs_accept_65536_fixed :
   hs_accept {| my_asn := 65536; peer_asn := 64999; universe := []; cfg_hold := None |} 64999 false = false.
 Proof. reflexivity. Qed.
+
+(* ------------------------------------------------------------ withdraws at byte level *)
+(* [kp] maps a key of the session model (Prefix.String() of the advertisement) to
+   the IPv4 prefix put on the wire.  ASSUMPTION of Model/Session.v, stated here:
+   distinct keys denote distinct NLRI ([nlri_inj]); see [alias_example]. *)
+Definition nlri_inj (kp : key -> prefix) : Prop :=
+  forall k1 k2, p_len (kp k1) = p_len (kp k2) ->
+    mask_to (p_len (kp k1)) (addr_val (p_ip (kp k1))) = mask_to (p_len (kp k2)) (addr_val (p_ip (kp k2))) -> k1 = k2.
+
+(* two different Go keys ("10.0.0.1/24", "10.0.0.0/24") that are ONE route on the
+   wire: Set of the first followed by Set of the second sends UPDATE (second) and
+   then withdraws the first = the same NLRI.  The session model does not cover
+   advertisements whose address has bits beyond the mask (the callers mask them:
+   speaker/bgp_controller.go lbIP.Mask(m)). *)
+Lemma alias_example :
+  let p1 := {| p_ip := [10; 0; 0; 1]; p_len := 24 |} in
+  let p2 := {| p_ip := [10; 0; 0; 0]; p_len := 24 |} in
+  p1 <> p2 /\ wf_prefix p1 /\ wf_prefix p2 /\
+  nlri_network (intended_nlri p1) = nlri_network (intended_nlri p2) /\ enc_prefix p1 = enc_prefix p2.
+Proof.
+  cbv zeta. split; [discriminate|]. split; [|split].
+  - split; [reflexivity|]. split; [repeat constructor | cbn; lia].
+  - split; [reflexivity|]. split; [repeat constructor | cbn; lia].
+  - split; reflexivity.
+Qed.
+
+(* the byte form of the model's [MWdr ks]: one sendWithdraw of the prefixes.  A
+   conforming peer reads it back exactly when it fits into 4096 octets, which is
+   guaranteed up to 814 withdrawn routes *)
+Theorem withdraw_bridge (kp : key -> prefix) (ks : list key) bs w4 :
+  (forall k, wf_prefix (kp k)) -> enc_withdraw (map kp ks) = Some bs ->
+  (dec_msg w4 bs = Some (intended_withdraw (map kp ks)) <-> len bs <= 4096) /\
+  (len ks <= 814 -> len bs <= 4096).
+Proof.
+  intros Hkp He.
+  assert (Hps : Forall wf_prefix (map kp ks)).
+  { apply Forall_forall. intros p Hp. apply in_map_iff in Hp. destruct Hp as (k & <- & _). apply Hkp. }
+  split; [exact (proj1 (withdraw_roundtrip_iff _ _ w4 Hps He))|].
+  intros Hn. rewrite (enc_withdraw_len _ _ He). pose proof (len_enc_prefixes _ Hps) as Hl.
+  unfold len in *. rewrite map_length in Hl. lia.
+Qed.
+
+(* ... and beyond that the convergence statement is FALSE at byte level for a
+   conforming peer (finding withdraw-exceeds-4096-octets): a reachable state of
+   the session model in which the next flush is ONE withdraw of 815 host routes,
+   whose byte form the RFC decoder rejects.  The model's peer (like the scripted
+   peer of the harness) applies the withdraw regardless of its size. *)
+Definition host_prefix (k : key) : prefix := {| p_ip := [10; 100 + k / 256; k mod 256; 7]; p_len := 32 |}.
+Definition keys815 : list key := map N.of_nat (seq 0 815).
+Definition cfg815 : cfg := {| my_asn := 64512; peer_asn := 64999; universe := keys815; cfg_hold := None |}.
+Definition es815 : list sev :=
+  [ESet (map (fun k => (k, 0)) keys815); EHandshake 1 64999 true true; EFirstFlush keys815 None; ESet []].
+
+Theorem stable_table_bytes_refuted :
+  exists w ks bs, run cfg815 world0 es815 = Some w /\
+    emitted cfg815 w (EDiffFlush keys815 keys815 None) = [MWdr ks] /\ len ks = 815 /\
+    Forall wf_prefix (map host_prefix ks) /\
+    enc_withdraw (map host_prefix ks) = Some bs /\ 4096 < len bs /\ dec_msg true bs = None.
+Proof.
+  destruct (run cfg815 world0 es815) as [w|] eqn:Er; [|vm_compute in Er; discriminate].
+  exists w, keys815. 
+  destruct (enc_withdraw (map host_prefix keys815)) as [bs|] eqn:Eb; [|vm_compute in Eb; discriminate].
+  exists bs. split; [reflexivity|].
+  assert (Hem : emitted cfg815 w (EDiffFlush keys815 keys815 None) = [MWdr keys815]).
+  { assert (H : match run cfg815 world0 es815 with
+                | Some w0 => emitted cfg815 w0 (EDiffFlush keys815 keys815 None) | None => [] end = [MWdr keys815])
+      by (vm_compute; reflexivity).
+    rewrite Er in H. exact H. }
+  split; [exact Hem|]. split; [vm_compute; reflexivity|]. split.
+  { apply Forall_forall. intros p Hp. apply in_map_iff in Hp. destruct Hp as (k & <- & Hk).
+    unfold keys815 in Hk. apply in_map_iff in Hk. destruct Hk as (n & <- & Hn). apply in_seq in Hn.
+    unfold host_prefix, wf_prefix. cbn [p_ip p_len]. split; [reflexivity|]. split; [|lia].
+    assert (N.of_nat n / 256 < 4) by (apply N.div_lt_upper_bound; lia).
+    pose proof (N.mod_lt (N.of_nat n) 256 ltac:(discriminate)).
+    repeat constructor; lia. }
+  split; [reflexivity|].
+  assert (H : match enc_withdraw (map host_prefix keys815) with
+              | Some b => (4096 <? len b) && match dec_msg true b with None => true | Some _ => false end
+              | None => false end = true) by (vm_compute; reflexivity).
+  rewrite Eb in H. apply andb_true_iff in H. destruct H as [H1 H2].
+  split; [apply N.ltb_lt; exact H1|]. destruct (dec_msg true bs); [discriminate | reflexivity].
+Qed.
